@@ -24,7 +24,7 @@ func init() {
 		ID:    "C11",
 		Title: "Every sentence of the CDCN grammar is accepted with its intended meaning",
 		Rule: "A derivation generator that encodes the rules of Syntax.cdsn (hash-checked at run time) emits sentences together with their denotation computed independently (strconv on every literal with Go semantics; Set = sorted distinct, Catalog/Map = first position / last value); the parsed collection's canonical tree must equal the denotation. " +
-			"Exhaustive: every document with 0..2 items drawn from 8 literal forms + 21 nested collections, for the 5 sequence kinds and (with 4 key forms) the 2 associative kinds, inline and multi-line. Random derivations to depth 3 and up to 40 items (token streams shorter and longer than the 16-token queue, optional spaces, any indentation, trailing EOLs), each parsed 4 (quick) / 12 (thorough) times with the queue hooks injecting yields/sleeps/spins between scanner and parser and GOMAXPROCS cycling through 1..16: all results identical; in addition the scanner goroutine is adopted by the controlled scheduler (spawn/end hooks) and for small sentences the schedules of scanner and parser are explored depth-first with at most two preemptions (150 / 3000 per sentence): every schedule must end with nobody left parked and with the denotation. " +
+			"Exhaustive: every document with 0..2 items drawn from 8 literal forms + 21 nested collections, for the 5 sequence kinds and (with 4 key forms) the 2 associative kinds, inline and multi-line. Random derivations to depth 3 and up to 40 items (token streams shorter and longer than the 16-token queue, optional spaces, any indentation, trailing EOLs), each parsed 4 (quick) / 12 (thorough) times with the queue hooks injecting yields/sleeps/spins between scanner and parser and GOMAXPROCS cycling through 1..16: all results identical; in addition the scanner goroutine is adopted by the controlled scheduler (spawn/end hooks) and for small sentences the schedules of scanner and parser are explored depth-first with at most two preemptions (150 / 1000 per sentence): every schedule must end with nobody left parked and with the denotation. " +
 			"Boundary literals that cannot be represented (out-of-range integers/hex/floats, ill-formed escapes) in every kind and position must be rejected with a located diagnostic. distinct_nontrivial = distinct sentences.",
 		Assumptions: []string{
 			"unescaped ' and \\ inside rune and string literals and doubly signed imaginary parts are not generated (the published grammar is ambiguous there)",
@@ -46,7 +46,7 @@ func init() {
 				Run: func(c *core.Ctx, idx int) { cdcnmon.RunC11Race(c) }},
 			{Name: "derivations/reused-notation", Count: core.FixedCount(5000, 150000), BlockIsViolation: true,
 				Run: func(c *core.Ctx, idx int) { cdcnmon.RunReusedNotation(c, "C11") }},
-			{Name: "m1/scanner-parser-schedules", Pool: "m1", Count: core.FixedCount(400, 8000), CPULimit: 600,
+			{Name: "m1/scanner-parser-schedules", Pool: "m1", Count: core.FixedCount(400, 2000), CPULimit: 600,
 				Run: func(c *core.Ctx, idx int) {
 					if conc.M1Disabled(c) {
 						return
